@@ -287,6 +287,15 @@ T = [
      "            name: step.value.clone(),", "            name: step.keyword.clone(),"),
     ("c14_json_rule_scenario_looked_up_without_rule", "C14/R7", "src/writer/json.rs",
      "        let el = self.mut_or_insert_element(feature, rule, scenario, ty);\n        el.steps.push(step);", "        let el = self.mut_or_insert_element(feature, None, scenario, ty);\n        let _ = rule;\n        el.steps.push(step);"),
+    ("c14_junit_logs_not_buffered", "C14/R8", "src/writer/junit.rs",
+     "            Scenario::Log(_)\n            | Scenario::Hook(..)\n            | Scenario::Background(..)\n            | Scenario::Step(..) => {\n                self.events.push(ev);\n            }",
+     "            Scenario::Log(_) => {}\n            Scenario::Hook(..)\n            | Scenario::Background(..)\n            | Scenario::Step(..) => {\n                self.events.push(ev);\n            }"),
+    ("c14_junit_events_not_taken", "C14/R8", "src/writer/junit.rs",
+     "                let events = mem::take(&mut self.events);", "                let events = self.events.clone();"),
+    ("c14_junit_rule_scenario_without_rule", "C14/R8", "src/writer/junit.rs",
+     "                let case = self.test_case(feat, rule, sc, &events, dur);", "                let case = self.test_case(feat, None, sc, &events, dur);\n                let _ = rule;"),
+    ("c14_junit_suite_not_added_to_report", "C14/R8", "src/writer/junit.rs",
+     "                    self.report.add_testsuite(suite);", "                    let _ = suite;"),
     # ---- C02
     ("c02_after_events_before_failed", "C02/R5", B,
      "            if let Some(exec_error) = result.err() {\n                self.emit_failed_events(\n                    feature.clone(),\n                    rule.clone(),\n                    scenario.clone(),\n                    world.clone(),\n                    exec_error,\n                    retry_num,\n                );\n            }\n\n            self.emit_after_hook_events(\n                feature.clone(),\n                rule.clone(),\n                scenario.clone(),\n                world,\n                after_hook_meta,\n                after_hook_error,\n                retry_num,\n            );",
